@@ -17,6 +17,7 @@ var verifC16 struct {
 	nth      int    // ... for the nth time (counted down)
 	capture  bool
 	captured [][2]string
+	onPoint  func(site string)
 }
 
 // VerifC16SetCrashPoint makes the process exit (status 77, no deferred functions: a kill) the nth
@@ -29,13 +30,25 @@ func VerifC16SetCrashPoint(site string, nth int) {
 
 func verifC16Point(site string) {
 	verifC16.Lock()
-	defer verifC16.Unlock()
 	if verifC16.nth > 0 && site == verifC16.site {
 		verifC16.nth--
 		if verifC16.nth == 0 {
 			os.Exit(77)
 		}
 	}
+	f := verifC16.onPoint
+	verifC16.Unlock()
+	if f != nil {
+		f(site)
+	}
+}
+
+// VerifC16OnPoint installs f, called (in saveState's goroutine) each time saveState reaches a step
+// boundary, so the harness can observe the directory between the steps; nil removes it.
+func VerifC16OnPoint(f func(site string)) {
+	verifC16.Lock()
+	verifC16.onPoint = f
+	verifC16.Unlock()
 }
 
 // VerifC16SaveState is the real saveState.
